@@ -142,7 +142,7 @@ prop("C18",
 
 
 prop("C07",
-     [("F", R.F_rules, K01, {}), ("S6", S.S6, K01, {}), ("T1", T.T1, K01, {})],
+     [("F", R.F_rules, K01, {}), ("S6", S.S6, K01, {}), ("T1", T.T1, K01, {"kinds": ("FAILED",)})],
      K01,
      "Decides F1 (on the Err arm of the user future exactly one awaited send on the RESULT channel carries that error), F2 (from the Err arm every "
      "path to the done-send passes through the release of the done-sender), F3 (RESULT capacity monotone in node_count; its receiver is drained only "
@@ -152,7 +152,7 @@ prop("C07",
      "that already started futures complete (contract of for_each_concurrent, trusted)")
 
 prop("C08",
-     [("I", R.I_rules, ("K1",), {}), ("S5", S.S5, ("K1",), {}), ("T1", T.T1, ("K1",), {})],
+     [("I", R.I_rules, ("K1",), {}), ("S5", S.S5, ("K1",), {}), ("T1", T.T1, ("K1",), {"kinds": ("INTERRUPTED",)})],
      ("K1",),
      "Decides the wiring only: I1 (opts.interruptibility_state and interrupted_next_item_include flow unchanged from each public parameter - or from "
      "StreamOpts::default() - to the ready-stream wrapper; stream_with_interruptible passes the state to interruptible_with, stream/stream_with do not wrap), "
